@@ -142,7 +142,7 @@ fn run_huge_probe(seed: u64, rep: &mut Report) {
 }
 
 pub fn run(ctx: Ctx) -> Report {
-    let n_cases: usize = ctx.tier.pick(640, 40_000);
+    let n_cases: usize = ctx.tier.pick(320_000, 4_000_000);
     let mut total = run::run_sharded("C04", ctx.shards, move |shard, nshards, rep| {
         let mut rng = Rng::new(ctx.seed.wrapping_mul(0x51F1).wrapping_add(shard as u64) ^ 0xC04);
         for i in 0..n_cases / nshards {
@@ -150,8 +150,8 @@ pub fn run(ctx: Ctx) -> Report {
             let cfg = GenCfg { max_size: if big { 200_000 } else { 4000 }, boundary_heavy: big, allow_junk: true, sane_line0: false };
             let mut scheme = refscheme::gen_scheme(&mut rng, &cfg);
             // two sampled sizes in (200000, 2^31): each packet allocates that much
-            if ctx.tier == Tier::Thorough && i % 400 == 7 {
-                let v = if i % 800 == 7 { 1_000_000 } else { 16_777_216 };
+            if i % 40000 == 7 {
+                let v = if i % 80000 == 7 { 1_000_000 } else { 16_777_216 };
                 scheme.lines.insert(1, vec![Entry::Range { lo: v, hi: v, reversed: false }]);
                 scheme.stop = scheme.stop.max(2);
             }
